@@ -54,11 +54,11 @@ def check(tier):
     binp = lib.build("c26")
     v = lib.Verdict(PID)
     with lib.Scratch() as scd:
-        # the law operators on the specification itself
-        laws = vc.tlc_jobs({"laws": dict(module="MC_TotalOrder", cfg="MC_TotalOrder.cfg", workers=vc.workers(0.3), timeout=1800, heap="3g",
-                                         coverage=(tier == "thorough"))})["laws"]
-        if laws.distinct < 19000:
-            raise lib.Inconclusive("law check explored only %d matrices" % laws.distinct)
+        # the law operators on the specification itself (runs while the engine trace is recorded and validated)
+        import concurrent.futures as cf
+        pool = cf.ThreadPoolExecutor(max_workers=1)
+        laws_f = pool.submit(vc.tlc_jobs, {"laws": dict(module="MC_TotalOrder", cfg="MC_TotalOrder.cfg", workers=vc.workers(0.25), timeout=1800,
+                                                          heap="3g", coverage=(tier == "thorough"))})
         sets = 3 if tier == "quick" else 40
         rep, trace = record(binp, scd, "trace", sets)
         if rep["cases"] < 60:
@@ -87,6 +87,9 @@ def check(tier):
                     if (e["id"], law) not in again:
                         raise lib.Inconclusive("broken law did not reproduce in isolation: %s %s" % (e["type"], law))
                     v.add("C26|%s|%s" % (e["type"].replace(" ", "_"), law), describe(e, m))
+        laws = laws_f.result()["laws"]
+        if laws.distinct < 19000:
+            raise lib.Inconclusive("law check explored only %d matrices" % laws.distinct)
         rc = v.finish()
         ex = rep["extra"]
         cov = {
